@@ -53,6 +53,11 @@ def known_fingerprints(pid):
     return {f['fingerprint'] for f in load_known_findings().get('findings', []) if f['property'] == pid}
 
 
+# evidence/ and replays/ normally live in /verif; VERIF_OUT redirects them (used when the checks are pointed at a
+# scratch copy of the repository with VERIF_REPO, so that /verif/evidence only ever describes /repo itself)
+OUT = os.environ.get('VERIF_OUT', VERIF)
+
+
 class Ctx:
     def __init__(self, pid, tier, level):
         self.pid = pid
@@ -115,7 +120,7 @@ class Ctx:
                 kf[f['fingerprint']] = f
         exit_code = 0
         n_unlisted = 0
-        os.makedirs(os.path.join(VERIF, 'replays'), exist_ok=True)
+        os.makedirs(os.path.join(OUT, 'replays'), exist_ok=True)
         for fp in sorted(self.violations):
             vs = self.violations[fp]
             if fp in kf:
@@ -139,7 +144,7 @@ class Ctx:
                 except Exception as e:   # replay machinery failed; report the original
                     self.notes.append('replay raised %r' % (e,))
             h = hashlib.sha1((fp + json.dumps(v.case, sort_keys=True, default=str)).encode()).hexdigest()[:12]
-            path = os.path.join(VERIF, 'replays', '%s-%s.json' % (self.pid, h))
+            path = os.path.join(OUT, 'replays', '%s-%s.json' % (self.pid, h))
             with open(path, 'w') as f:
                 json.dump({'property': self.pid, 'fingerprint': fp, 'violation': v.to_json()}, f, indent=1, default=str)
             print('VIOLATION property=%s replay=%s' % (self.pid, path))
@@ -165,8 +170,8 @@ class Ctx:
             'wall_s': round(time.time() - self.t0, 2),
             'violations': n_unlisted,
         }
-        os.makedirs(os.path.join(VERIF, 'evidence'), exist_ok=True)
-        with open(os.path.join(VERIF, 'evidence', '%s.json' % self.pid), 'w') as f:
+        os.makedirs(os.path.join(OUT, 'evidence'), exist_ok=True)
+        with open(os.path.join(OUT, 'evidence', '%s.json' % self.pid), 'w') as f:
             json.dump(ev, f, indent=1, default=str)
         summ = {k: v for k, v in cov.items() if isinstance(v, (int, float, bool))}
         print('%s %s: %s wall=%.1fs exit=%d' % (self.pid, self.tier, json.dumps(summ, sort_keys=True), ev['wall_s'], exit_code))
